@@ -582,7 +582,14 @@ pub fn search_consumers(ctx: &Ctx, cases: usize, points: usize) {
     base.exclude = exclusions_for(&ctx.prop);
     let s = Search {
         name: "concurrent-consumers".to_string(),
-        strategy: Box::new(|| cc_strategy_with(true)),
+        strategy: Box::new(|| {
+            // a third of the cases: readers polling a topic whose block is sealed under them
+            prop_oneof![
+                2 => cc_strategy_with(true),
+                1 => (rotation_strategy(), any::<u16>(), any::<u16>()).prop_map(|(conc, point, torn)| CcCase { conc, point, torn }),
+            ]
+            .boxed()
+        }),
         run: Box::new(move |c: &CcCase| cc_case(&prop, c, &base, points)),
         cases,
         workers: cores(),
